@@ -20,10 +20,11 @@ HERE = os.path.dirname(os.path.abspath(__file__))
 OUT = os.environ.get("VERIF_DERIVED", os.path.join(os.path.dirname(HERE), ".build", "ohsl_sym"))
 
 FLOAT = re.compile(r"(?<![\w.])(\d[\d_]*\.\d[\d_]*(?:[eE][+-]?\d+)?(?:_f64)?|\d[\d_]*\.(?![.\w])|\d[\d_]*[eE][+-]?\d+(?:_f64)?|\d[\d_]*_f64)(?![\w])")
-CAST_PAREN = re.compile(r"(\((?:[^()]|\([^()]*\))*\))\s*as\s+f64\b")
+# a parenthesised expression or a call / method-call chain (`x.abs()`, `v.len()`) followed by `as T`
+CAST_PAREN = re.compile(r"((?:\b[A-Za-z_]\w*(?:\.[A-Za-z_]\w*)*)?\((?:[^()]|\([^()]*\))*\)(?:\.[A-Za-z_]\w*\((?:[^()]|\([^()]*\))*\))*)\s*as\s+f64\b")
 CAST_IDENT = re.compile(r"\b([A-Za-z_][\w]*(?:\.[A-Za-z_]\w*)*)\s+as\s+f64\b")
 # integer casts go through a generic helper (identity for primitives) so that `x as i32` on a re-typed float still compiles
-ICAST_PAREN = re.compile(r"(\((?:[^()]|\([^()]*\))*\))\s*as\s+(usize|isize|u32|u64|i32|i64)\b")
+ICAST_PAREN = re.compile(r"((?:\b[A-Za-z_]\w*(?:\.[A-Za-z_]\w*)*)?\((?:[^()]|\([^()]*\))*\)(?:\.[A-Za-z_]\w*\((?:[^()]|\([^()]*\))*\))*)\s*as\s+(usize|isize|u32|u64|i32|i64)\b")
 ICAST_IDENT = re.compile(r"\b([A-Za-z_][\w]*(?:\.[A-Za-z_]\w*)*)\s+as\s+(usize|isize|u32|u64|i32|i64)\b")
 PUBLISH = re.compile(r"^(\s*)fn (quadratic_solve|cubic_solve|poly_solve|laguer|decompose|max_abs_in_column|backsolve|partial_pivot|gauss_with_pivot|identity_preconditioner|new_nonzero)\b", re.M)
 
@@ -78,9 +79,9 @@ def retype_source(text):
         for is_code, t in split_code(line):
             if is_code:
                 t = t.replace("rng.gen::<f64>()", "f64::lit(rng.gen::<core::primitive::f64>())")
-                t = ICAST_PAREN.sub(lambda m: "symcore::cast_int::<%s, _>%s" % (m.group(2), m.group(1)), t)
+                t = ICAST_PAREN.sub(lambda m: "symcore::cast_int::<%s, _>(%s)" % (m.group(2), m.group(1)), t)
                 t = ICAST_IDENT.sub(lambda m: "symcore::cast_int::<%s, _>(%s)" % (m.group(2), m.group(1)), t)
-                t = CAST_PAREN.sub(lambda m: "f64::cast_from" + m.group(1), t)
+                t = CAST_PAREN.sub(lambda m: "f64::cast_from(" + m.group(1) + ")", t)
                 t = CAST_IDENT.sub(lambda m: "f64::cast_from(" + m.group(1) + ")", t)
                 t = FLOAT.sub(lambda m: "f64::lit(" + strip_f64_suffix(m.group(1)) + ("0" if m.group(1).endswith(".") else "") + ")", t)
             pieces.append(t)
